@@ -4,6 +4,7 @@ from __future__ import annotations
 
 import random
 import hashlib
+from fractions import Fraction
 import sympy as sp
 
 from .values import UNIT_SYMS
@@ -32,65 +33,223 @@ def sample_point(symbols, rng, constraints=None):
     return pt
 
 
-def _apply_opaque(expr, salt):
-    """Replace applications of uninterpreted functions by deterministic pseudo-random rationals of
-    their (already numeric) arguments: equal arguments -> equal value, different arguments ->
-    (almost surely) different value.  Sound for 'injective' reading of opaque operators."""
-    def value(f):
-        args = [evaluate(a, salt) for a in f.args]
-        h = hashlib.sha256((f.func.__name__ + "|" + "|".join(str(a) for a in args) + "|" + str(salt)).encode()).hexdigest()
-        num = int(h[:8], 16) % 9973 + 1
-        den = int(h[8:12], 16) % 97 + 1
-        re_ = sp.Rational(num, den)
-        im_ = sp.Rational(int(h[12:18], 16) % 8191 + 1, int(h[18:22], 16) % 89 + 1)
-        return re_ + sp.I * im_ if f.func.__name__ in ("FFT", "IFFT", "Idx", "Opq", "FFTSHIFT", "IFFTSHIFT") else re_
-    return value
+class _Inexact(Exception):
+    pass
 
 
-def evaluate(expr, salt=0):
-    """Exact numeric value of a closed term (no free symbols); opaque functions are hashed."""
-    expr = sp.sympify(expr)
-    if isinstance(expr, sp.logic.boolalg.Boolean) or isinstance(expr, sp.core.relational.Relational):
-        if isinstance(expr, sp.core.relational.Relational):
-            l, r = evaluate(expr.lhs, salt), evaluate(expr.rhs, salt)
-            return sp.sympify(expr.func(l, r))
-        return expr.func(*[evaluate(a, salt) for a in expr.args]) if expr.args else expr
-    if isinstance(expr, sp.Piecewise):
-        for e, c in expr.args:
-            cv = evaluate(c, salt) if c is not sp.true and c is not True else sp.true
-            if cv is sp.true or cv == True:  # noqa: E712
-                return evaluate(e, salt)
-            if cv is sp.false or cv == False:  # noqa: E712
-                continue
-            raise ValueError(f"undecided Piecewise condition {c} -> {cv}")
+def _opaque_value(name, args, salt):
+    h = hashlib.sha256((name + "|" + "|".join(str(a) for a in args) + "|" + str(salt)).encode()).hexdigest()
+    re_ = Fraction(int(h[:8], 16) % 9973 + 1, int(h[8:12], 16) % 97 + 1)
+    if name in ("FFT", "IFFT", "Idx", "Opq", "FFTSHIFT", "IFFTSHIFT", "Take", "Concat", "Reshape", "Swapaxes"):
+        im_ = Fraction(int(h[12:18], 16) % 8191 + 1, int(h[18:22], 16) % 89 + 1)
+        return GQ(re_, im_)
+    return GQ(re_, Fraction(0))
+
+
+class GQ:
+    """Gaussian rational a + b*i with exact arithmetic."""
+    __slots__ = ("re", "im")
+
+    def __init__(self, re_, im_=Fraction(0)):
+        self.re, self.im = Fraction(re_), Fraction(im_)
+
+    def __add__(self, o):
+        return GQ(self.re + o.re, self.im + o.im)
+
+    def __mul__(self, o):
+        return GQ(self.re * o.re - self.im * o.im, self.re * o.im + self.im * o.re)
+
+    def inv(self):
+        d = self.re * self.re + self.im * self.im
+        if d == 0:
+            raise ZeroDivisionError
+        return GQ(self.re / d, -self.im / d)
+
+    def is_real(self):
+        return self.im == 0
+
+    def __eq__(self, o):
+        return isinstance(o, GQ) and self.re == o.re and self.im == o.im
+
+    def __hash__(self):
+        return hash((self.re, self.im))
+
+    def __repr__(self):
+        return f"{self.re}" if self.im == 0 else f"({self.re}+{self.im}i)"
+
+    def to_sympy(self):
+        return sp.Rational(self.re.numerator, self.re.denominator) + sp.I * sp.Rational(self.im.numerator, self.im.denominator)
+
+
+def _ipow(b, n):
+    if n < 0:
+        b, n = b.inv(), -n
+    r = GQ(1)
+    while n:
+        if n & 1:
+            r = r * b
+        b = b * b
+        n >>= 1
+    return r
+
+
+def _exact(e, env, salt):
+    """Exact value (GQ) of a sympy term under env {Symbol: Fraction}; raises _Inexact for
+    transcendental / irrational sub-terms."""
+    if e.is_Symbol:
+        if e in env:
+            v = env[e]
+            return v if isinstance(v, GQ) else GQ(Fraction(int(v.p), int(v.q)) if isinstance(v, sp.Rational) else Fraction(v))
+        raise ValueError(f"free symbol {e}")
+    if e.is_Rational:
+        return GQ(Fraction(int(e.p), int(e.q)))
+    if e is sp.I:
+        return GQ(0, 1)
+    if e.is_Add:
+        r = GQ(0)
+        for a in e.args:
+            r = r + _exact(a, env, salt)
+        return r
+    if e.is_Mul:
+        r = GQ(1)
+        for a in e.args:
+            r = r * _exact(a, env, salt)
+        return r
+    if e.is_Pow:
+        b, x = e.args
+        xv = _exact(x, env, salt)
+        if xv.is_real() and xv.re.denominator == 1:
+            return _ipow(_exact(b, env, salt), int(xv.re))
+        bv = _exact(b, env, salt)
+        if bv.is_real() and xv.is_real() and bv.re >= 0:
+            # rational power: exact only for perfect powers
+            num, den = xv.re.numerator, xv.re.denominator
+            from math import isqrt
+            if den == 2:
+                n_, d_ = bv.re.numerator, bv.re.denominator
+                rn, rd = isqrt(n_), isqrt(d_)
+                if rn * rn == n_ and rd * rd == d_:
+                    return _ipow(GQ(Fraction(rn, rd)), num)
+        raise _Inexact()
+    f = e.func
+    if f in (sp.floor, sp.ceiling):
+        v = _exact(e.args[0], env, salt)
+        import math
+        if f is sp.floor:
+            return GQ(math.floor(v.re), math.floor(v.im))
+        return GQ(math.ceil(v.re), math.ceil(v.im))
+    if f in (sp.Min, sp.Max):
+        vs = [_exact(a, env, salt) for a in e.args]
+        if not all(v.is_real() for v in vs):
+            raise ValueError("Min/Max of non-real")
+        return GQ((min if f is sp.Min else max)(v.re for v in vs))
+    if f is sp.Abs:
+        v = _exact(e.args[0], env, salt)
+        if v.is_real():
+            return GQ(abs(v.re))
+        raise _Inexact()
+    if f is sp.re:
+        return GQ(_exact(e.args[0], env, salt).re)
+    if f is sp.im:
+        return GQ(_exact(e.args[0], env, salt).im)
+    if f is sp.conjugate:
+        v = _exact(e.args[0], env, salt)
+        return GQ(v.re, -v.im)
+    if f is sp.sign:
+        v = _exact(e.args[0], env, salt)
+        return GQ((v.re > 0) - (v.re < 0))
+    if f is sp.Mod:
+        a, b = (_exact(x, env, salt) for x in e.args)
+        return GQ(a.re % b.re)
+    if f is sp.Piecewise:
+        for ex, c in e.args:
+            if c is sp.true or c is True or _truth(c, env, salt):
+                return _exact(ex, env, salt)
         raise ValueError("Piecewise without a true branch")
-    if isinstance(expr, sp.core.function.AppliedUndef):
-        return _apply_opaque(expr, salt)(expr)
-    if not expr.args:
-        return expr
-    args = [evaluate(a, salt) for a in expr.args]
+    if isinstance(e, sp.core.function.AppliedUndef):
+        args = [_exact(a, env, salt) for a in e.args]
+        return _opaque_value(f.__name__, args, salt)
+    if e is sp.true or e is sp.false:
+        return GQ(1 if e is sp.true else 0)
+    raise _Inexact()
+
+
+def _truth(c, env, salt):
+    if c is sp.true or c is True:
+        return True
+    if c is sp.false or c is False:
+        return False
+    if isinstance(c, sp.And):
+        return all(_truth(a, env, salt) for a in c.args)
+    if isinstance(c, sp.Or):
+        return any(_truth(a, env, salt) for a in c.args)
+    if isinstance(c, sp.Not):
+        return not _truth(c.args[0], env, salt)
+    if isinstance(c, sp.Xor):
+        return sum(_truth(a, env, salt) for a in c.args) % 2 == 1
+    if isinstance(c, sp.core.relational.Relational):
+        l, r = _exact(c.lhs, env, salt), _exact(c.rhs, env, salt)
+        if isinstance(c, sp.Eq):
+            return l == r
+        if isinstance(c, sp.Ne):
+            return l != r
+        if not (l.is_real() and r.is_real()):
+            raise ValueError("ordering of non-real values")
+        return {sp.Lt: l.re < r.re, sp.Le: l.re <= r.re, sp.Gt: l.re > r.re, sp.Ge: l.re >= r.re}[type(c)]
+    if c.is_Symbol and c in env:
+        return bool(env[c])
+    raise _Inexact()
+
+
+def evaluate(expr, salt=0, env=None):
+    """Value of a term at the point `env` ({Symbol: sympy Rational}): exact Gaussian-rational arithmetic
+    where possible, otherwise sympy/mpmath at 60 digits.  Opaque functions are hashed on their argument values."""
+    expr = sp.sympify(expr)
+    env = env or {}
     try:
-        v = expr.func(*args)
-    except Exception:
-        v = expr.func(*args, evaluate=False)
-    return v
+        if isinstance(expr, (sp.logic.boolalg.Boolean, sp.core.relational.Relational)):
+            return sp.true if _truth(expr, env, salt) else sp.false
+        return _exact(expr, env, salt).to_sympy()
+    except _Inexact:
+        return _mp_eval(expr, env, salt)
+
+
+def _mp_eval(expr, env, salt):
+    """Fallback for transcendental terms: replace opaque applications bottom-up, then evalf."""
+    def repl(e):
+        if isinstance(e, sp.core.function.AppliedUndef):
+            args = [repl(a) for a in e.args]
+            vals = []
+            for a in args:
+                a2 = a.subs(env) if a.free_symbols else a
+                vals.append(sp.nsimplify(a2) if a2.is_Rational else sp.N(a2, 30))
+            return _opaque_value(e.func.__name__, vals, salt).to_sympy()
+        if not e.args:
+            return e
+        return e.func(*[repl(a) for a in e.args], evaluate=False) if e.func in (sp.Min, sp.Max, sp.floor, sp.ceiling) \
+            else e.func(*[repl(a) for a in e.args])
+    e2 = repl(expr)
+    e2 = e2.subs(env) if e2.free_symbols else e2
+    return e2
 
 
 def is_zero_value(v):
-    v = sp.nsimplify(v) if v.is_number and not v.is_Rational and v.is_real is not False and False else v
-    try:
-        v = sp.simplify(v)
-    except Exception:
-        pass
+    v = sp.sympify(v)
     if v == 0:
         return True
+    if v.is_Rational or (v.is_number and v.as_real_imag()[0].is_Rational and v.as_real_imag()[1].is_Rational):
+        return False
+    try:
+        if sp.simplify(v) == 0:
+            return True
+    except Exception:
+        pass
     if v.is_number:
         try:
-            f = complex(sp.N(v, 40))
-            if abs(f) < 1e-25:
-                # exact zero test for algebraic numbers
-                return sp.simplify(sp.expand(v)) == 0 or abs(complex(sp.N(v, 80))) < 1e-60
-            return False
+            f = complex(sp.N(v, 60))
+            if abs(f) > 1e-30:
+                return False
+            return abs(complex(sp.N(v, 120))) < 1e-90
         except Exception:
             return None
     return None
@@ -119,7 +278,7 @@ def equal(a, b, seed=0, points=6, constraints=None, assume=None):
         d1 = sp.expand(diff)
         if d1 == 0:
             return Verdict(True, "expand")
-        if not diff.has(sp.Piecewise):
+        if not diff.has(sp.Piecewise, sp.floor, sp.ceiling, sp.Min, sp.Max, sp.Mod) and sp.count_ops(diff) < 400:
             d2 = sp.simplify(diff)
             if d2 == 0:
                 return Verdict(True, "simplify")
@@ -135,8 +294,8 @@ def equal(a, b, seed=0, points=6, constraints=None, assume=None):
     for k in range(points):
         pt = sample_point(syms, rng, constraints)
         try:
-            va = evaluate(a.subs(pt), salt=k)
-            vb = evaluate(b.subs(pt), salt=k)
+            va = evaluate(a, salt=k, env=pt)
+            vb = evaluate(b, salt=k, env=pt)
             z = is_zero_value(va - vb)
         except Exception as e:
             z = None
